@@ -22,7 +22,7 @@ KNOWN = ("TestNewTodoApp", "TestMoveClassApp", "TestRenameMethodApp", "TestRemov
 
 
 def sh(cmd, cwd=None, env=ENV, timeout=3600):
-    r = subprocess.run(cmd, cwd=cwd, env=env, shell=isinstance(cmd, str), capture_output=True, text=True, timeout=timeout)
+    r = subprocess.run(cmd, cwd=cwd, env=env, shell=isinstance(cmd, str), capture_output=True, text=True, errors="replace", timeout=timeout)
     return r.returncode, r.stdout, r.stderr
 
 
@@ -165,7 +165,7 @@ def main():
         meta["checks"] = {}
         for tier in tiers:
             t0 = time.time()
-            r = subprocess.run([os.path.join(ROOT, "scripts", "check.sh"), pid, tier], cwd=ROOT, env=dict(ENV, VERIF_BASE_OVERLAY=base), capture_output=True, text=True)
+            r = subprocess.run([os.path.join(ROOT, "scripts", "check.sh"), pid, tier], cwd=ROOT, env=dict(ENV, VERIF_BASE_OVERLAY=base), capture_output=True, text=True, errors="replace")
             viol = [l for l in r.stdout.splitlines() if l.startswith("VIOLATION property=")]
             meta["checks"][tier] = dict(exit=r.returncode, detected=(r.returncode == 1 and bool(viol)), violations=[v[:400] for v in viol][:6], wall_s=round(time.time() - t0, 1),
                                        stderr_tail=r.stderr[-300:] if r.returncode not in (0, 1) else "")
